@@ -7,11 +7,11 @@ from .engine_stmt import NEXT, RET, RAISE, BRK, CONT
 from . import front
 
 MUTATORS = {'append', 'extend'}
-KIND_TESTS = {'is_int': 'int', 'is_bool': 'bool', 'is_str': 'str', 'is_bytes': 'bytes', 'is_ref': 'ref',
+KIND_TESTS = {'is_list_bytes': 'list_bytes', 'is_int': 'int', 'is_bool': 'bool', 'is_str': 'str', 'is_bytes': 'bytes', 'is_ref': 'ref',
               'is_none': 'none', 'is_unset': 'unset', 'is_real': 'real', 'is_ver': 'ver', 'is_obj': 'obj',
               'is_list_si': 'list_si', 'is_list_str': 'list_str', 'is_pair_si': 'pair_si', 'is_func': 'func',
               'is_list_ib': 'list_ib', 'is_exc': 'exc', 'is_list_ref': 'list_ref'}
-KIND_CASTS = {'as_int': 'int', 'as_bool': 'bool', 'as_str': 'str', 'as_bytes': 'bytes', 'as_ref': 'ref',
+KIND_CASTS = {'as_list_bytes': 'list_bytes', 'as_int': 'int', 'as_bool': 'bool', 'as_str': 'str', 'as_bytes': 'bytes', 'as_ref': 'ref',
               'as_real': 'real', 'as_list_si': 'list_si', 'as_list_str': 'list_str', 'as_pair_si': 'pair_si',
               'as_list_ib': 'list_ib', 'as_ver': 'ver', 'as_list_ref': 'list_ref', 'as_obj': 'obj'}
 
@@ -145,6 +145,16 @@ class CallMixin:
                 return self.call_repo(fv, args, kwargs, p, fc, node)
             if fv.fk == 'closure':
                 raise Unsupported('direct call of a closure')
+        if isinstance(fv, VRef):
+            out = []
+            for (q, cls) in self.classof(p, fv):
+                ci, fn = self.repo.find_method(cls, '__call__') if cls in self.repo.classes else (None, None)
+                if fn is None:
+                    out.append(self.raise_(q, 'TypeError', 'object is not callable: ' + self.src(node)))
+                    continue
+                f = VFunc('method', ci.qname + '.__call__', self_v=VRef(fv.t, cls), node=fn, module=ci.module, cls=ci)
+                out.extend(self.call_repo(f, [f.self_v] + list(args), kwargs, q, fc, node))
+            return out
         if isinstance(fv, VClass):
             if fv.exc or self.is_exc_class(fv.name):
                 return [Res(p, VExc(fv.name.split('.')[-1], args, self.src(node)))]
@@ -251,7 +261,7 @@ class CallMixin:
 
     def apply_contract1(self, c, env, p, fc, node, where):
         saved_env = p.env
-        old = (dict(env), dict(p.heap))
+        old = (dict(env), dict(p.heap), p.epoch)
         sfc = self.contract_fc(c, old)
         p.env = dict(env)
         out = []
@@ -333,6 +343,22 @@ class CallMixin:
             p.heap['$next'] = n
         elif isinstance(m, ast.Call) and isinstance(m.func, ast.Name) and m.func.id == 'callbacks':
             p.heap['$cblog'] = fresh('hv_cblog', z3.SeqSort(CbCall))
+        elif isinstance(m, ast.Call) and isinstance(m.func, ast.Name) and m.func.id == 'all_but':
+            keep = set('f:' + ast.literal_eval(a) for a in m.args)
+            keep.add('$cls')
+            # arrays first touched after this point denote the post-call heap, not the entry heap
+            p.epoch = Path.fresh_name('e').split('!')[1]
+            for nm in list(p.heap):
+                if nm in keep:
+                    continue
+                if nm == '$next':
+                    n = fresh('next', I)
+                    p.assume(n >= p.heap['$next'])
+                    p.heap['$next'] = n
+                elif nm == '$cblog':
+                    p.heap['$cblog'] = fresh('hv_cblog', z3.SeqSort(CbCall))
+                else:
+                    p.heap[nm] = fresh('hv_' + nm.replace(':', '_').replace('$', ''), p.heap[nm].sort())
         else:
             raise Unsupported('modifies clause ' + self.src(m))
 
@@ -552,10 +578,11 @@ class CallMixin:
     def sp_old(self, node, p, fc):
         if fc.old is None:
             raise Unsupported('old() outside a contract')
-        env, heap = fc.old
+        env, heap, epoch = fc.old
         q = p.fork()
         q.env = dict(env)
         q.heap = dict(heap)
+        q.epoch = epoch
         n0 = len(q.pc)
         rs = self.ev(node.args[0], q, fc)
         for a in q.pc[n0:]:
@@ -581,6 +608,30 @@ class CallMixin:
         if isinstance(v, VUnion):
             return [Res(p, VInt(z3.If(z3.And(v.is_('bool'), v.get('bool')), 1, z3.If(v.is_('int'), v.get('int'), 0))))]
         return [Res(p, VInt(as_int(v)))]
+
+    def sp_lb(self, node, p, fc):
+        """lb(b1, b2, ...): list of byte strings"""
+        vs = [self.ev(a, p, fc)[0].v for a in node.args]
+        S = z3.SeqSort(BytesS)
+        if not vs:
+            return [Res(p, VList(z3.Empty(S), 'bytes'))]
+        us = [z3.Unit(v.get('bytes') if isinstance(v, VUnion) else v.t) for v in vs]
+        return [Res(p, VList(us[0] if len(us) == 1 else z3.Concat(*us), 'bytes'))]
+
+    def sp_num(self, node, p, fc):
+        """numeric value (as a real) of an int-or-real valued expression"""
+        v = self.ev(node.args[0], p, fc)[0].v
+        if isinstance(v, VUnion):
+            return [Res(p, VReal(z3.If(v.is_('int'), z3.ToReal(v.get('int')), v.get('real'))))]
+        if isinstance(v, VReal):
+            return [Res(p, v)]
+        return [Res(p, VReal(z3.ToReal(as_int(v))))]
+
+    def sp_is_num(self, node, p, fc):
+        v = self.ev(node.args[0], p, fc)[0].v
+        if isinstance(v, VUnion):
+            return [Res(p, VBool(z3.Or(v.is_('int'), v.is_('real'))))]
+        return [Res(p, VBool(isinstance(v, (VInt, VReal))))]
 
     def sp_len(self, node, p, fc):
         v = self.ev(node.args[0], p, fc)[0].v
@@ -705,7 +756,7 @@ class CallMixin:
             return [Res(p, VBool(z3.And(v.is_('ref'), z3.Select(harr(p, '$cls'), v.get('ref')) == cls_code(cls),
                                         v.get('ref') > 0, v.get('ref') < next_ref(p))))]
         if isinstance(v, VRef):
-            return [Res(p, VBool(z3.Select(harr(p, '$cls'), v.t) == cls_code(cls)))]
+            return [Res(p, VBool(z3.And(z3.Select(harr(p, '$cls'), v.t) == cls_code(cls), v.t > 0, v.t < next_ref(p))))]
         return [Res(p, VBool(False))]
 
     def sp_unfold(self, node, p, fc):
